@@ -44,6 +44,10 @@ CHECKS = {
    technique="explicit-state exploration of the parser's context stack: every chain of <= 3/4/5 nesting constructors x leaf bodies parsed with recording statement+expression interceptors, per-invocation comparison with the reference nesting model of the harness unparser; final-state clause over all token sequences <= 4/5, all byte strings <= 4, every truncation and single-token deletion of every nested program",
    text="Every nesting chain up to the depth bound over 17 nesting constructors (blocks and functions in every statement and expression position) is parsed by the real parser with interceptors that query IsInFunction()/CurrentContext() at every parse step; each answer is compared with the nesting path the reference unparser recorded for that token. Every malformed input of the bounded universes (all short token/byte sequences, every truncation/deletion of every nested program) must leave the context at top level. Push/pop imbalances need a specific exit path at a specific depth; the enumeration drives every construct at every depth <= d and every early exit.",
    note="trusted: harness unparser nesting paths (statement structure cross-checked against goja by C02), offset mapping of token positions (LF lines, byte columns)"),
+ "C04": dict(cat="model_checking", sec="4 C04",
+   technique="configuration x input product with an interceptor-log reference model: 30/56 interceptor configurations (counts up to 8, every pass-through/re-entrant expression sequence <= 3/4, direct or via plugins) x all token sequences <= 3/4 (valid and malformed), all expression chains <= depth 3, statement families; results compared with the interceptor-free run, logs checked against the step model, second parser from the same builder",
+   text="Every enumerated input is run under every interceptor configuration of the tier on the real lexer/parser builders; each run is compared with the interceptor-free run (tokens, tree with positions, errors, output) and its interceptor log is checked against the reference log model (complete runs in installation order, same steps in every configuration, entry token = first token of the construct returned, every statement/operand produced by exactly one step, token interceptors once per request on the lexeme's first byte, a second parser from the same builder logs the same). Chain-order and binding-power-restore slips need a specific chain length, position of the re-entrant interceptor and expression depth; the product covers all of them within the bounds.",
+   note="trusted: leftmost-token function and step-coverage walk over xjs nodes (props/c04.go); a re-entrant interceptor ends the chain by construction"),
 }
 NA_REASON = {}
 def main():
